@@ -36,6 +36,8 @@ def build(chk):
     c_slowest(chk)
     c_min_velocity(chk)
     c_init(chk)
+    from .common import hydro_frame
+    hydro_frame(chk)
 
 
 def c_deflag(chk):
